@@ -107,7 +107,8 @@ def parseJPairs : List String → Option (List (Nat × VExpr))
   | _ => none
 
 def routeCode : String → Option Nat
-  | "h" => some 0 | "d" => some 1 | "x" => some 2 | "." => some 3 | "s" => some 4 | _ => none
+  | "h" => some 0 | "d" => some 1 | "x" => some 2 | "." => some 3 | "s" => some 4
+  | "q" => some 5 | "a" => some 6 | _ => none
 
 def parseOrder (s : String) : Option (Option (List Nat)) :=
   if s == "-" then some none
@@ -131,7 +132,8 @@ def parseStep : List String → Option Op
     match routeCode route, slot.toNat?, parseKey key, parseVExpr v with
     | some r, some slot, some k, some v =>
       -- the selector route takes non-symbol keys, the dot routes symbol keys only
-      if (r == 2 && k.isSym) || ((r == 3 || r == 4) && !k.isSym) then none else some (.write r slot k v)
+      -- (5 = selector with a quoted field symbol, 6 = hset with the key in a one-element array)
+      if (r == 2 && k.isSym) || ((r == 3 || r == 4 || r == 5) && !k.isSym) then none else some (.write r slot k v)
     | _, _, _, _ => none
   | "P" :: route :: slot :: np :: rest =>
     match routeCode route, slot.toNat?, np.toNat? with
